@@ -5,12 +5,19 @@ are proved for ordered event lists, the scanner theorems of coq/props/C16Css.v.
 Tie: every generated stylesheet goes through emmet.css_matcher (scan, match,
 balanced_outward, balanced_inward at every position -1..len+1) and through the extracted
 model; canonical observables are compared.  Search: the ground truth recorded by the
-generator is the oracle (independent of the model)."""
+generator is the oracle (independent of the model).
+Level B tie (level_b): every generated stylesheet is also read as a sheet of the GRAMMAR of the
+Level B theorems (coq/model/CssSheet.v, extracted via coq/run/SheetRun.v); when the grammar
+accepts it (wf_sheet) the sheet must render to the very text, and the callbacks it denotes
+(`events`, the right-hand side of css_scan_render) must equal both the generator's record and what
+emmet.css_matcher.scan reports.  The share of generated sheets inside the proved grammar is
+written into the evidence."""
 import json
 import os
 
 import common
 import css_util as U
+import sheet_util as SU
 
 FUNCS = ('match', 'outward', 'inward')
 KEY_PAREN = 'css:semicolon-or-brace-inside-parentheses-delimits'
@@ -54,8 +61,70 @@ def oracle_doc(text, items, im):
     return bad
 
 
+def level_b(ctx, docs, impls, finding_docs=()):
+    """Spec of the Level B theorems against the generator's record and the implementation.
+    The witnesses of the listed finding must lie OUTSIDE the proved grammar."""
+    model = ctx.model('sheet')
+    if model is None:
+        return
+    cases, idx = [], []
+    stat = {'sheets': len(docs), 'in_grammar': 0, 'outside': {}, 'render_differs': 0, 'record_differs': 0,
+            'implementation_differs': 0, 'finding_witnesses_outside': 0}
+    for text, items in finding_docs:
+        try:
+            w = model.run([SU.enc_sheet(SU.build_sheet(text, items))])[0]
+            r = SU.decode(w)
+            if r is not None and r[0]:
+                # a sheet of the proved grammar on which the property is recorded to fail
+                ctx.broken.append({'kind': 'level-b-tie', 'file': 'finding-witness-inside-proved-grammar', 'input': text})
+            else:
+                stat['finding_witnesses_outside'] += 1
+        except SU.Outside:
+            stat['finding_witnesses_outside'] += 1
+
+    def outside(why):
+        stat['outside'][why] = stat['outside'].get(why, 0) + 1
+    for i, (text, items) in enumerate(docs):
+        try:
+            cases.append(SU.enc_sheet(SU.build_sheet(text, items)))
+            idx.append(i)
+        except SU.Outside as e:
+            outside(str(e))
+    outs = model.run(cases)
+    for i, w in zip(idx, outs):
+        text, items = docs[i]
+        r = SU.decode(w)
+        if r is None:
+            ctx.broken.append({'kind': 'level-b-tie', 'file': 'sheet-encoding', 'input': text})
+            continue
+        wf, rendered, evs = r
+        if not wf:
+            outside('wf_sheet-false')
+            continue
+        stat['in_grammar'] += 1
+        ctx.cover('levelB:sheet-in-proved-grammar')
+        if rendered != text:
+            stat['render_differs'] += 1
+            ctx.broken.append({'kind': 'level-b-tie', 'file': 'render', 'input': text, 'model': rendered[:300]})
+            continue
+        im = impls[i]
+        if im['events'] != ('ok', evs):
+            # the implementation does not report the callbacks the theorem's right-hand side denotes
+            stat['implementation_differs'] += 1
+            if stat['implementation_differs'] <= 3:
+                ctx.say('LEVEL-B css scan on %s\n  impl   %r\n  events %r' % (U.short(text), im['events'], evs))
+            if not oracle_doc(text, items, im):
+                ctx.broken.append({'kind': 'level-b-tie', 'file': 'css_scan_render:events-vs-implementation',
+                                   'input': text, 'impl': repr(im['events'])[:300], 'model': repr(evs)[:300]})
+        if SU.record_events(items) != evs:
+            stat['record_differs'] += 1
+            ctx.broken.append({'kind': 'level-b-tie', 'file': 'tree-vs-generator-record', 'input': text,
+                               'record': repr(SU.record_events(items))[:300], 'model': repr(evs)[:300]})
+    ctx.cov['correspondence']['level_b_grammar'] = stat
+
+
 def run(ctx):
-    ok = ctx.build(['props/C10.vo', 'props/C16Css.vo', 'run/CssRun.vo'])
+    ok = ctx.build(['props/C10.vo', 'props/C16Css.vo', 'run/CssRun.vo', 'run/SheetRun.vo'])
     if ok:
         ctx.obligations('props/C10.v')
         ctx.obligations('props/C16Css.v')
@@ -142,6 +211,8 @@ def run(ctx):
                                            'impl': repr(a)[:300], 'model': repr(b)[:300]})
         ctx.cov['correspondence']['css_matcher'] = {'sheets': len(docs), 'positions': sum(len(t) + 3 for t in texts),
                                                     'disagreements': dis}
+    if ok:
+        level_b(ctx, docs, impls, [(c['text'], c['items']) for c in corpus if c.get('finding_key')])
 
 
 def replay(ctx, obj):
